@@ -551,6 +551,27 @@ def io_faults(rep, wd, rng, quick):
                         bad = dict(flip=good[:-2] + "X\n", append=good + "x", truncate=good[:-1])[tam]
                         steps.append(dict(write=dict(path=f"p/{at}.txt", text=bad)))
                     add(sources(), steps + [run_step("verify", via, inputs)], "verify-" + tam, at, "verify", via, "err")
+                # the same for outputs whose fresh length is 0 or a multiple of the I/O buffer size (where a streaming
+                # comparison has nothing buffered when it decides whether anything is left over)
+                good_len = dict(r=35, m=21, l=7, s=7)[at]
+                for size in (0, 8192, 16384):
+                    if size == 0 and at not in ("l", "s"):
+                        continue
+                    fs_ = sources()
+                    for x in fs_:
+                        if x["path"] == f"p/{at}.txt.txtpp":
+                            if size == 0:
+                                x["text"] = "-TXTPP#\n"
+                            else:
+                                pad, t = size - good_len, ""
+                                while pad > 64:
+                                    t += "y" * 63 + "\n"
+                                    pad -= 64
+                                x["text"] += t + "y" * (pad - 1) + "\n"
+                    for how, grown in (("append1", 1), ("append-many", 9000)):
+                        steps = [dict(run=dict(base="p", inputs=["."], mode="build", threads=2)),
+                                 dict(tamper=dict(path=f"p/{at}.txt", how=how)), dict(snapshot=True)]
+                        add(fs_, steps + [run_step("verify", via, inputs)], f"verify-append@{size}", at, "verify", via, "err", extra=size + grown)
                 # temp target cannot be written
                 for tk in ("temp-is-directory", "temp-dir-missing"):
                     fs_ = sources()
@@ -575,6 +596,10 @@ def io_faults(rep, wd, rng, quick):
         if r.get("skipped"):
             continue   # the runner stopped after too many hung / panicked runs (each one already reported)
         st = r["steps"][-1]
+        if m["kind"].startswith("verify-append@"):
+            got = r["steps"][-2]["tree"].get(f"p/{m['at']}.txt", {}).get("size")
+            if got != m["extra"]:
+                raise ToolError(f"C04 fault driver: the tampered output has {got} bytes, expected {m['extra']} ({m['kind']} at {m['at']})")
         kinds.add((m["kind"], m["at"], m["mode"], m["via"]))
         ctx = f"[fault {m['kind']} at the {pos.get(m['at'], '-')} file, mode {m['mode']}, {m['via']}]"
         if st["verdict"] in ("panic", "hang"):
